@@ -468,3 +468,219 @@ broadcast proof fn lemma_norm_normal(c: Class, t: PTerm)
 broadcast group group_parser { lemma_npe0, lemma_npe1, lemma_npe2, lemma_npe3, lemma_norm0, lemma_norm1, lemma_norm2, lemma_norm3,
     lemma_npass0, lemma_npass1, lemma_npass2, lemma_npass3, lemma_npass_class, lemma_ntail_class, lemma_ntail_other,
     lemma_npass_normal, lemma_ntail_normal, lemma_norm_normal }
+
+// ---- sanity lemmas about the REFERENCE itself (guard against a reference that merely mirrors the code) --
+
+// (S1) the result is left-nested: no node of the class has an unparenthesised node of the class as its
+// right operand, anywhere in the tree.
+#[verifier::opaque]
+spec fn p_left_ok(c: Class, t: PTerm) -> bool
+    decreases t
+{
+    &&& (in_class(c, t.kind) && t.kids.len() == 2 ==> !(in_class(c, t.kids[1].kind) && !t.kids[1].group))
+    &&& forall|i: int| #![trigger t.kids[i]] 0 <= i < t.kids.len() ==> p_left_ok(c, t.kids[i])
+}
+
+// every node of the class is binary (true of every pview image)
+#[verifier::opaque]
+spec fn p_arity_ok(c: Class, t: PTerm) -> bool
+    decreases t
+{
+    &&& (in_class(c, t.kind) ==> t.kids.len() == 2)
+    &&& forall|i: int| #![trigger t.kids[i]] 0 <= i < t.kids.len() ==> p_arity_ok(c, t.kids[i])
+}
+
+proof fn lemma_left_ok_mk(c: Class, op: PKind, a: PTerm, b: PTerm)
+    requires p_left_ok(c, a), p_left_ok(c, b), !(in_class(c, b.kind) && !b.group),
+    ensures p_left_ok(c, mk(op, a, b)),
+{
+    reveal(p_left_ok);
+    let t = mk(op, a, b);
+    assert(t.kids[0] == a);
+    assert(t.kids[1] == b);
+    assert forall|i: int| 0 <= i < t.kids.len() implies p_left_ok(c, #[trigger] t.kids[i]) by { assert(i == 0 || i == 1); }
+}
+
+// the reference turns a node of the class into a PARENTHESISED node of the class, and keeps the kind and
+// the group flag of every other node
+proof fn lemma_pass_shape(c: Class, t: PTerm)
+    ensures
+        in_class(c, t.kind) && t.kids.len() == 2 ==> in_class(c, p_pass(c, t).kind) && p_pass(c, t).group,
+        !(in_class(c, t.kind) && t.kids.len() == 2) ==> p_pass(c, t).kind == t.kind && p_pass(c, t).group == t.group,
+    decreases t, 0nat
+{
+    reveal(p_pass); reveal(p_tail);
+    if in_class(c, t.kind) && t.kids.len() == 2 {
+        let r = t.kids[1];
+        if in_class(c, r.kind) && !r.group { lemma_tail_shape(c, p_pass(c, t.kids[0]), t.kind, r); }
+    }
+}
+
+proof fn lemma_tail_shape(c: Class, acc: PTerm, op: PKind, t: PTerm)
+    requires in_class(c, op)
+    ensures in_class(c, p_tail(c, acc, op, t).kind) && p_tail(c, acc, op, t).group,
+    decreases t, 1nat
+{
+    reveal(p_pass); reveal(p_tail);
+    if in_class(c, t.kind) && t.kids.len() == 2 {
+        let r = t.kids[1];
+        if in_class(c, r.kind) && !r.group { lemma_tail_shape(c, mk(op, acc, p_pass(c, t.kids[0])), t.kind, r); }
+    }
+}
+
+proof fn lemma_pass_left_ok(c: Class, t: PTerm)
+    requires p_arity_ok(c, t),
+    ensures p_left_ok(c, p_pass(c, t)),
+    decreases t, 0nat
+{
+    reveal(p_pass); reveal(p_tail); reveal(p_arity_ok);
+    if in_class(c, t.kind) && t.kids.len() == 2 {
+        let l = t.kids[0];
+        let r = t.kids[1];
+        lemma_pass_left_ok(c, l);
+        if in_class(c, r.kind) && !r.group {
+            lemma_tail_left_ok(c, p_pass(c, l), t.kind, r);
+        } else {
+            lemma_pass_left_ok(c, r);
+            lemma_pass_shape(c, r);
+            lemma_left_ok_mk(c, t.kind, p_pass(c, l), p_pass(c, r));
+        }
+    } else {
+        let r = p_pass(c, t);
+        assert forall|i: int| 0 <= i < r.kids.len() implies p_left_ok(c, #[trigger] r.kids[i]) by {
+            lemma_pass_left_ok(c, t.kids[i]);
+        }
+        reveal(p_left_ok);
+    }
+}
+
+proof fn lemma_tail_left_ok(c: Class, acc: PTerm, op: PKind, t: PTerm)
+    requires p_left_ok(c, acc), in_class(c, op), p_arity_ok(c, t),
+    ensures p_left_ok(c, p_tail(c, acc, op, t)),
+    decreases t, 1nat
+{
+    reveal(p_pass); reveal(p_tail); reveal(p_arity_ok);
+    if in_class(c, t.kind) && t.kids.len() == 2 {
+        let l = t.kids[0];
+        let r = t.kids[1];
+        lemma_pass_left_ok(c, l);
+        lemma_pass_shape(c, l);
+        // a left operand of the class can only be a parenthesised one: after the pass it is grouped
+        lemma_left_ok_mk(c, op, acc, p_pass(c, l));
+        let acc2 = mk(op, acc, p_pass(c, l));
+        if in_class(c, r.kind) && !r.group {
+            lemma_tail_left_ok(c, acc2, t.kind, r);
+        } else {
+            lemma_pass_left_ok(c, r);
+            lemma_pass_shape(c, r);
+            lemma_left_ok_mk(c, t.kind, acc2, p_pass(c, r));
+        }
+    } else {
+        lemma_pass_left_ok(c, t);
+        lemma_pass_shape(c, t);
+        lemma_left_ok_mk(c, op, acc, p_pass(c, t));
+    }
+}
+
+// (S2) the in-order sequence of leaves (atoms) is unchanged: re-association only moves parentheses.
+spec fn p_leaves(t: PTerm) -> Seq<PKind>
+    decreases t, 1nat
+{
+    if t.kids.len() == 0 { Seq::empty().push(t.kind) } else { p_leaves_of(t, t.kids.len()) }
+}
+
+// leaves of the first n children of t
+spec fn p_leaves_of(t: PTerm, n: nat) -> Seq<PKind>
+    decreases t, 0nat, n
+{
+    if n == 0 || n > t.kids.len() { Seq::empty() } else { p_leaves_of(t, (n - 1) as nat) + p_leaves(t.kids[n - 1]) }
+}
+
+proof fn lemma_leaves_mk(op: PKind, a: PTerm, b: PTerm)
+    ensures p_leaves(mk(op, a, b)) == p_leaves(a) + p_leaves(b),
+{
+    let t = mk(op, a, b);
+    assert(t.kids.len() == 2);
+    assert(t.kids[0] == a);
+    assert(t.kids[1] == b);
+    reveal_with_fuel(p_leaves_of, 4);
+    assert(p_leaves_of(t, 0) == Seq::<PKind>::empty());
+    assert(p_leaves_of(t, 1) == p_leaves_of(t, 0) + p_leaves(a));
+    assert(p_leaves_of(t, 2) == p_leaves_of(t, 1) + p_leaves(b));
+    assert(Seq::<PKind>::empty() + p_leaves(a) =~= p_leaves(a));
+}
+
+proof fn lemma_leaves_of_congr(t: PTerm, r: PTerm, n: nat)
+    requires
+        r.kids.len() == t.kids.len(),
+        n <= t.kids.len(),
+        forall|i: int| 0 <= i < t.kids.len() ==> p_leaves(#[trigger] r.kids[i]) == p_leaves(t.kids[i]),
+    ensures p_leaves_of(r, n) == p_leaves_of(t, n),
+    decreases n
+{
+    if n > 0 {
+        lemma_leaves_of_congr(t, r, (n - 1) as nat);
+        assert(p_leaves(r.kids[n - 1]) == p_leaves(t.kids[n - 1]));
+    }
+}
+
+proof fn lemma_pass_leaves(c: Class, t: PTerm)
+    ensures p_leaves(p_pass(c, t)) == p_leaves(t),
+    decreases t, 0nat
+{
+    reveal(p_pass); reveal(p_tail);
+    if in_class(c, t.kind) && t.kids.len() == 2 {
+        let l = t.kids[0];
+        let r = t.kids[1];
+        lemma_pass_leaves(c, l);
+        // leaves(t) = leaves(l) + leaves(r)
+        reveal_with_fuel(p_leaves_of, 4);
+        assert(p_leaves_of(t, 1) == p_leaves_of(t, 0) + p_leaves(l));
+        assert(p_leaves_of(t, 2) == p_leaves_of(t, 1) + p_leaves(r));
+        assert(Seq::<PKind>::empty() + p_leaves(l) =~= p_leaves(l));
+        assert(p_leaves(t) == p_leaves(l) + p_leaves(r));
+        if in_class(c, r.kind) && !r.group {
+            lemma_tail_leaves(c, p_pass(c, l), t.kind, r);
+        } else {
+            lemma_pass_leaves(c, r);
+            lemma_leaves_mk(t.kind, p_pass(c, l), p_pass(c, r));
+        }
+    } else {
+        let r = p_pass(c, t);
+        assert(r.kids.len() == t.kids.len());
+        assert forall|i: int| 0 <= i < t.kids.len() implies p_leaves(#[trigger] r.kids[i]) == p_leaves(t.kids[i]) by {
+            lemma_pass_leaves(c, t.kids[i]);
+        }
+        lemma_leaves_of_congr(t, r, t.kids.len());
+    }
+}
+
+proof fn lemma_tail_leaves(c: Class, acc: PTerm, op: PKind, t: PTerm)
+    ensures p_leaves(p_tail(c, acc, op, t)) == p_leaves(acc) + p_leaves(t),
+    decreases t, 1nat
+{
+    reveal(p_pass); reveal(p_tail);
+    if in_class(c, t.kind) && t.kids.len() == 2 {
+        let l = t.kids[0];
+        let r = t.kids[1];
+        lemma_pass_leaves(c, l);
+        reveal_with_fuel(p_leaves_of, 4);
+        assert(p_leaves_of(t, 1) == p_leaves_of(t, 0) + p_leaves(l));
+        assert(p_leaves_of(t, 2) == p_leaves_of(t, 1) + p_leaves(r));
+        assert(Seq::<PKind>::empty() + p_leaves(l) =~= p_leaves(l));
+        assert(p_leaves(t) == p_leaves(l) + p_leaves(r));
+        let acc2 = mk(op, acc, p_pass(c, l));
+        lemma_leaves_mk(op, acc, p_pass(c, l));
+        if in_class(c, r.kind) && !r.group {
+            lemma_tail_leaves(c, acc2, t.kind, r);
+            assert((p_leaves(acc) + p_leaves(l)) + p_leaves(r) =~= p_leaves(acc) + (p_leaves(l) + p_leaves(r)));
+        } else {
+            lemma_pass_leaves(c, r);
+            lemma_leaves_mk(t.kind, acc2, p_pass(c, r));
+            assert((p_leaves(acc) + p_leaves(l)) + p_leaves(r) =~= p_leaves(acc) + (p_leaves(l) + p_leaves(r)));
+        }
+    } else {
+        lemma_pass_leaves(c, t);
+        lemma_leaves_mk(op, acc, p_pass(c, t));
+    }
+}
